@@ -1,7 +1,11 @@
 //! group `ratio`: C04 (rational arithmetic), C18 (rational approximation)
 #[path = "../ops_ratio.rs"]
 mod ops_ratio;
+#[path = "../ops_simplify2.rs"]
+mod ops_simplify2; // C18: simplest_from_float over more bases / infinities with a context
+#[path = "../ops_ratio_pred.rs"]
+mod ops_ratio_pred; // C04: predicates / accessors / constants of rbig.rs, sign.rs
 
 fn main() {
-    verif_harness::run_main(&[ops_ratio::dispatch]);
+    verif_harness::run_main(&[ops_simplify2::dispatch, ops_ratio::dispatch, ops_ratio_pred::dispatch]);
 }
